@@ -25,13 +25,44 @@ structure PostPre where
   /-- object-level tree → raw tree -/
   pre : Val → Val
 
+/-- what kind of codec a type has: a plain schema, or one of the schemas with an object-level view -/
+inductive Kind where
+  | regular (s : Schema)
+  | loc
+  | opt
+  /-- OPT as shipped before the repair of `EDEOption.from_wire_parser` (not in the table; see `C02.ede_…`) -/
+  | optShipped
+  | apl
+  | svcb
+
 structure Entry where
   cls : Nat
   typ : Nat
   mnemonic : String
-  schema : Schema
-  /-- `none`: the object-level tree is the decoded tree itself -/
-  custom : Option PostPre := none
+  kind : Kind
+
+def Entry.schema (e : Entry) : Schema :=
+  match e.kind with
+  | .regular s => s
+  | .loc => locSchema
+  | .opt => optSchema
+  | .optShipped => optSchema
+  | .apl => .rep aplItemSchema
+  | .svcb => svcbSchema
+
+/-- `none`: the object-level tree is the decoded tree itself -/
+def Entry.custom (e : Entry) : Option PostPre :=
+  match e.kind with
+  | .regular _ => none
+  | .loc => some ⟨locPost, locPre⟩
+  | .opt => some ⟨optPost, id⟩
+  | .optShipped => some ⟨optPostShipped, id⟩
+  | .apl => some ⟨aplPost, aplPre⟩
+  | .svcb => some ⟨svcbPost, id⟩
+
+def Kind.isShipped : Kind → Bool
+  | .optShipped => true
+  | _ => false
 
 def Entry.post (e : Entry) (v : Val) : Option Val :=
   match e.custom with
@@ -64,92 +95,92 @@ def hipSchema : Schema :=
   .bind (seq [u8, u8, u16]) (fun h => h.fst.toNat + 256 * h.snd.snd.toNat) (2 ^ 24)
     (fun i => seq [.fixed (i % 256), .fixed (i / 256), .rep nm])
 
-def hipEntry : Entry := { cls := anyClass, typ := 55, mnemonic := "HIP", schema := hipSchema }
+def hipEntry : Entry := { cls := anyClass, typ := 55, mnemonic := "HIP", kind := .regular (hipSchema) }
 
 /-- all entries but HIP (whose 2^24 alternatives are checked by a lemma, not by evaluation) -/
 def tableRest : List Entry := [
   -- dns/rdtypes/ANY
-  { cls := anyClass, typ := 18, mnemonic := "AFSDB", schema := mxSchema },
+  { cls := anyClass, typ := 18, mnemonic := "AFSDB", kind := .regular (mxSchema) },
   { cls := anyClass, typ := 260, mnemonic := "AMTRELAY",
-    schema := .bind (seq [u8, u8]) (fun h => h.snd.toNat % 128) 4 gatewayAlt },
-  { cls := anyClass, typ := 258, mnemonic := "AVC", schema := txtSchema },
-  { cls := anyClass, typ := 68, mnemonic := "BRID", schema := .rest },
+    kind := .regular (.bind (seq [u8, u8]) (fun h => h.snd.toNat % 128) 4 gatewayAlt) },
+  { cls := anyClass, typ := 258, mnemonic := "AVC", kind := .regular (txtSchema) },
+  { cls := anyClass, typ := 68, mnemonic := "BRID", kind := .regular (.rest) },
   { cls := anyClass, typ := 257, mnemonic := "CAA",
-    schema := seq [u8, .check (fun v => isAlnum v.toBytes) c8, .rest] },
-  { cls := anyClass, typ := 60, mnemonic := "CDNSKEY", schema := dnskeySchema },
-  { cls := anyClass, typ := 59, mnemonic := "CDS", schema := dsSchema ConstsC02.cdsDigestLen },
-  { cls := anyClass, typ := 37, mnemonic := "CERT", schema := seq [u16, u16, u8, .rest] },
-  { cls := anyClass, typ := 5, mnemonic := "CNAME", schema := nm },
-  { cls := anyClass, typ := 62, mnemonic := "CSYNC", schema := seq [u32, u16, bitmap] },
-  { cls := anyClass, typ := 32769, mnemonic := "DLV", schema := dsSchema ConstsC02.dsDigestLen },
-  { cls := anyClass, typ := 39, mnemonic := "DNAME", schema := nm },
-  { cls := anyClass, typ := 48, mnemonic := "DNSKEY", schema := dnskeySchema },
-  { cls := anyClass, typ := 43, mnemonic := "DS", schema := dsSchema ConstsC02.dsDigestLen },
-  { cls := anyClass, typ := 66, mnemonic := "DSYNC", schema := seq [u16, u8, u16, nm] },
-  { cls := anyClass, typ := 108, mnemonic := "EUI48", schema := .fixed ConstsC02.eui48Len },
-  { cls := anyClass, typ := 109, mnemonic := "EUI64", schema := .fixed ConstsC02.eui64Len },
-  { cls := anyClass, typ := 27, mnemonic := "GPOS", schema := .check gposOk (seq [c8, c8, c8]) },
-  { cls := anyClass, typ := 67, mnemonic := "HHIT", schema := .rest },
-  { cls := anyClass, typ := 13, mnemonic := "HINFO", schema := seq [c8, c8] },
-  { cls := anyClass, typ := 20, mnemonic := "ISDN", schema := seq [c8, .optCounted 1] },
-  { cls := anyClass, typ := 25, mnemonic := "KEY", schema := dnskeySchema },
-  { cls := anyClass, typ := 105, mnemonic := "L32", schema := seq [u16, .fixed 4] },
-  { cls := anyClass, typ := 106, mnemonic := "L64", schema := seq [u16, .fixed 8] },
-  { cls := anyClass, typ := 29, mnemonic := "LOC", schema := locSchema, custom := some ⟨locPost, locPre⟩ },
-  { cls := anyClass, typ := 107, mnemonic := "LP", schema := mxSchema },
-  { cls := anyClass, typ := 15, mnemonic := "MX", schema := mxSchema },
-  { cls := anyClass, typ := 104, mnemonic := "NID", schema := seq [u16, .fixed 8] },
-  { cls := anyClass, typ := 56, mnemonic := "NINFO", schema := txtSchema },
-  { cls := anyClass, typ := 2, mnemonic := "NS", schema := nm },
-  { cls := anyClass, typ := 47, mnemonic := "NSEC", schema := seq [nm, bitmap] },
-  { cls := anyClass, typ := 50, mnemonic := "NSEC3", schema := seq [u8, u8, u16, c8, c8, bitmap] },
-  { cls := anyClass, typ := 51, mnemonic := "NSEC3PARAM", schema := seq [u8, u8, u16, c8] },
-  { cls := anyClass, typ := 61, mnemonic := "OPENPGPKEY", schema := .rest },
-  { cls := anyClass, typ := 41, mnemonic := "OPT", schema := optSchema, custom := some ⟨optPost, id⟩ },
-  { cls := anyClass, typ := 12, mnemonic := "PTR", schema := nm },
-  { cls := anyClass, typ := 261, mnemonic := "RESINFO", schema := txtSchema },
-  { cls := anyClass, typ := 17, mnemonic := "RP", schema := seq [nm, nm] },
-  { cls := anyClass, typ := 46, mnemonic := "RRSIG", schema := rrsigSchema },
-  { cls := anyClass, typ := 21, mnemonic := "RT", schema := mxSchema },
-  { cls := anyClass, typ := 24, mnemonic := "SIG", schema := rrsigSchema },
-  { cls := anyClass, typ := 53, mnemonic := "SMIMEA", schema := tlsaSchema },
-  { cls := anyClass, typ := 6, mnemonic := "SOA", schema := seq [nm, nm, u32, ttl32, ttl32, ttl32, ttl32] },
-  { cls := anyClass, typ := 99, mnemonic := "SPF", schema := txtSchema },
-  { cls := anyClass, typ := 44, mnemonic := "SSHFP", schema := seq [u8, u8, .rest] },
-  { cls := anyClass, typ := 249, mnemonic := "TKEY", schema := seq [nm, u32, u32, u16, u16, c16, c16] },
-  { cls := anyClass, typ := 52, mnemonic := "TLSA", schema := tlsaSchema },
+    kind := .regular (seq [u8, .check (fun v => isAlnum v.toBytes) c8, .rest]) },
+  { cls := anyClass, typ := 60, mnemonic := "CDNSKEY", kind := .regular (dnskeySchema) },
+  { cls := anyClass, typ := 59, mnemonic := "CDS", kind := .regular (dsSchema ConstsC02.cdsDigestLen) },
+  { cls := anyClass, typ := 37, mnemonic := "CERT", kind := .regular (seq [u16, u16, u8, .rest]) },
+  { cls := anyClass, typ := 5, mnemonic := "CNAME", kind := .regular (nm) },
+  { cls := anyClass, typ := 62, mnemonic := "CSYNC", kind := .regular (seq [u32, u16, bitmap]) },
+  { cls := anyClass, typ := 32769, mnemonic := "DLV", kind := .regular (dsSchema ConstsC02.dsDigestLen) },
+  { cls := anyClass, typ := 39, mnemonic := "DNAME", kind := .regular (nm) },
+  { cls := anyClass, typ := 48, mnemonic := "DNSKEY", kind := .regular (dnskeySchema) },
+  { cls := anyClass, typ := 43, mnemonic := "DS", kind := .regular (dsSchema ConstsC02.dsDigestLen) },
+  { cls := anyClass, typ := 66, mnemonic := "DSYNC", kind := .regular (seq [u16, u8, u16, nm]) },
+  { cls := anyClass, typ := 108, mnemonic := "EUI48", kind := .regular (.fixed ConstsC02.eui48Len) },
+  { cls := anyClass, typ := 109, mnemonic := "EUI64", kind := .regular (.fixed ConstsC02.eui64Len) },
+  { cls := anyClass, typ := 27, mnemonic := "GPOS", kind := .regular (.check gposOk (seq [c8, c8, c8])) },
+  { cls := anyClass, typ := 67, mnemonic := "HHIT", kind := .regular (.rest) },
+  { cls := anyClass, typ := 13, mnemonic := "HINFO", kind := .regular (seq [c8, c8]) },
+  { cls := anyClass, typ := 20, mnemonic := "ISDN", kind := .regular (seq [c8, .optCounted 1]) },
+  { cls := anyClass, typ := 25, mnemonic := "KEY", kind := .regular (dnskeySchema) },
+  { cls := anyClass, typ := 105, mnemonic := "L32", kind := .regular (seq [u16, .fixed 4]) },
+  { cls := anyClass, typ := 106, mnemonic := "L64", kind := .regular (seq [u16, .fixed 8]) },
+  { cls := anyClass, typ := 29, mnemonic := "LOC", kind := .loc },
+  { cls := anyClass, typ := 107, mnemonic := "LP", kind := .regular (mxSchema) },
+  { cls := anyClass, typ := 15, mnemonic := "MX", kind := .regular (mxSchema) },
+  { cls := anyClass, typ := 104, mnemonic := "NID", kind := .regular (seq [u16, .fixed 8]) },
+  { cls := anyClass, typ := 56, mnemonic := "NINFO", kind := .regular (txtSchema) },
+  { cls := anyClass, typ := 2, mnemonic := "NS", kind := .regular (nm) },
+  { cls := anyClass, typ := 47, mnemonic := "NSEC", kind := .regular (seq [nm, bitmap]) },
+  { cls := anyClass, typ := 50, mnemonic := "NSEC3", kind := .regular (seq [u8, u8, u16, c8, c8, bitmap]) },
+  { cls := anyClass, typ := 51, mnemonic := "NSEC3PARAM", kind := .regular (seq [u8, u8, u16, c8]) },
+  { cls := anyClass, typ := 61, mnemonic := "OPENPGPKEY", kind := .regular (.rest) },
+  { cls := anyClass, typ := 41, mnemonic := "OPT", kind := .opt },
+  { cls := anyClass, typ := 12, mnemonic := "PTR", kind := .regular (nm) },
+  { cls := anyClass, typ := 261, mnemonic := "RESINFO", kind := .regular (txtSchema) },
+  { cls := anyClass, typ := 17, mnemonic := "RP", kind := .regular (seq [nm, nm]) },
+  { cls := anyClass, typ := 46, mnemonic := "RRSIG", kind := .regular (rrsigSchema) },
+  { cls := anyClass, typ := 21, mnemonic := "RT", kind := .regular (mxSchema) },
+  { cls := anyClass, typ := 24, mnemonic := "SIG", kind := .regular (rrsigSchema) },
+  { cls := anyClass, typ := 53, mnemonic := "SMIMEA", kind := .regular (tlsaSchema) },
+  { cls := anyClass, typ := 6, mnemonic := "SOA", kind := .regular (seq [nm, nm, u32, ttl32, ttl32, ttl32, ttl32]) },
+  { cls := anyClass, typ := 99, mnemonic := "SPF", kind := .regular (txtSchema) },
+  { cls := anyClass, typ := 44, mnemonic := "SSHFP", kind := .regular (seq [u8, u8, .rest]) },
+  { cls := anyClass, typ := 249, mnemonic := "TKEY", kind := .regular (seq [nm, u32, u32, u16, u16, c16, c16]) },
+  { cls := anyClass, typ := 52, mnemonic := "TLSA", kind := .regular (tlsaSchema) },
   { cls := anyClass, typ := 250, mnemonic := "TSIG",
-    schema := seq [nmAbs, u48, u16, c16, u16, .check (fun v => decide (v.toNat ≤ ConstsC02.rcodeMax)) u16, c16] },
-  { cls := anyClass, typ := 16, mnemonic := "TXT", schema := txtSchema },
+    kind := .regular (seq [nmAbs, u48, u16, c16, u16, .check (fun v => decide (v.toNat ≤ ConstsC02.rcodeMax)) u16, c16]) },
+  { cls := anyClass, typ := 16, mnemonic := "TXT", kind := .regular (txtSchema) },
   { cls := anyClass, typ := 256, mnemonic := "URI",
-    schema := seq [u16, u16, .check (fun v => !v.toBytes.isEmpty) .rest] },
-  { cls := anyClass, typ := 262, mnemonic := "WALLET", schema := txtSchema },
-  { cls := anyClass, typ := 19, mnemonic := "X25", schema := c8 },
-  { cls := anyClass, typ := 63, mnemonic := "ZONEMD", schema := .check zonemdOk (seq [u32, u8, u8, .rest]) },
+    kind := .regular (seq [u16, u16, .check (fun v => !v.toBytes.isEmpty) .rest]) },
+  { cls := anyClass, typ := 262, mnemonic := "WALLET", kind := .regular (txtSchema) },
+  { cls := anyClass, typ := 19, mnemonic := "X25", kind := .regular (c8) },
+  { cls := anyClass, typ := 63, mnemonic := "ZONEMD", kind := .regular (.check zonemdOk (seq [u32, u8, u8, .rest])) },
   -- dns/rdtypes/IN
-  { cls := 1, typ := 1, mnemonic := "A", schema := .fixed 4 },
-  { cls := 1, typ := 28, mnemonic := "AAAA", schema := .fixed 16 },
-  { cls := 1, typ := 42, mnemonic := "APL", schema := .rep aplItemSchema, custom := some ⟨aplPost, aplPre⟩ },
-  { cls := 1, typ := 49, mnemonic := "DHCID", schema := .rest },
-  { cls := 1, typ := 65, mnemonic := "HTTPS", schema := svcbSchema, custom := some ⟨svcbPost, id⟩ },
+  { cls := 1, typ := 1, mnemonic := "A", kind := .regular (.fixed 4) },
+  { cls := 1, typ := 28, mnemonic := "AAAA", kind := .regular (.fixed 16) },
+  { cls := 1, typ := 42, mnemonic := "APL", kind := .apl },
+  { cls := 1, typ := 49, mnemonic := "DHCID", kind := .regular (.rest) },
+  { cls := 1, typ := 65, mnemonic := "HTTPS", kind := .svcb },
   { cls := 1, typ := 45, mnemonic := "IPSECKEY",
-    schema := .pair (.bind (seq [u8, u8, u8]) (fun h => h.snd.fst.toNat) 4 gatewayAlt) .rest },
-  { cls := 1, typ := 36, mnemonic := "KX", schema := mxSchema },
-  { cls := 1, typ := 35, mnemonic := "NAPTR", schema := seq [u16, u16, c8, c8, c8, nm] },
-  { cls := 1, typ := 22, mnemonic := "NSAP", schema := .rest },
-  { cls := 1, typ := 23, mnemonic := "NSAP_PTR", schema := nm },
-  { cls := 1, typ := 26, mnemonic := "PX", schema := seq [u16, nm, nm] },
-  { cls := 1, typ := 33, mnemonic := "SRV", schema := seq [u16, u16, u16, nm] },
-  { cls := 1, typ := 64, mnemonic := "SVCB", schema := svcbSchema, custom := some ⟨svcbPost, id⟩ },
-  { cls := 1, typ := 11, mnemonic := "WKS", schema := seq [.fixed 4, u8, .rest] },
+    kind := .regular (.pair (.bind (seq [u8, u8, u8]) (fun h => h.snd.fst.toNat) 4 gatewayAlt) .rest) },
+  { cls := 1, typ := 36, mnemonic := "KX", kind := .regular (mxSchema) },
+  { cls := 1, typ := 35, mnemonic := "NAPTR", kind := .regular (seq [u16, u16, c8, c8, c8, nm]) },
+  { cls := 1, typ := 22, mnemonic := "NSAP", kind := .regular (.rest) },
+  { cls := 1, typ := 23, mnemonic := "NSAP_PTR", kind := .regular (nm) },
+  { cls := 1, typ := 26, mnemonic := "PX", kind := .regular (seq [u16, nm, nm]) },
+  { cls := 1, typ := 33, mnemonic := "SRV", kind := .regular (seq [u16, u16, u16, nm]) },
+  { cls := 1, typ := 64, mnemonic := "SVCB", kind := .svcb },
+  { cls := 1, typ := 11, mnemonic := "WKS", kind := .regular (seq [.fixed 4, u8, .rest]) },
   -- dns/rdtypes/CH
-  { cls := 3, typ := 1, mnemonic := "A", schema := seq [nm, u16] }
+  { cls := 3, typ := 1, mnemonic := "A", kind := .regular (seq [nm, u16]) }
 ]
 
 def table : List Entry := hipEntry :: tableRest
 
 /-- RFC 3597 unknown-type form (`GenericRdata`) -/
-def genericEntry (c t : Nat) : Entry := { cls := c, typ := t, mnemonic := "GENERIC", schema := .rest }
+def genericEntry (c t : Nat) : Entry := { cls := c, typ := t, mnemonic := "GENERIC", kind := .regular (.rest) }
 
 /-- `dns.rdata.get_rdata_class(rdclass, rdtype)` -/
 def lookup (c t : Nat) : Entry :=
